@@ -304,3 +304,146 @@ theorem rebalRec_spec (ws : Array (WsItem K)) (N0 P0 : Nat) (wok : WsOk ws N0 P0
       · exact Nat.lt_of_lt_of_le (o1.alLt n hn') f24.nsize
       · exact Nat.lt_of_lt_of_le (o2.alLt n hn') f34.nsize
       · exact o3.alLt n hn'
+
+/-! ## termination: the fuel suffices -/
+
+theorem rebalLeafLoop_some (ws : Array (WsItem K)) (myLeaf myInternal : Nat) :
+    ∀ (l : List Nat) (k : Nat) (a : LeafAcc K), l.length + k ≤ 4 →
+      (∀ i ∈ l, ∃ it : WsItem K, ws[i]? = some it ∧ (it.isLeaf = true → it.orig < a.q.proxies.size) ∧
+        (it.isLeaf = false → it.orig < a.q.nodes.size)) →
+      ∃ a', rebalLeafLoop ws myLeaf myInternal l k a = some a' := by
+  intro l
+  induction l with
+  | nil => intro k a _ _; exact ⟨a, rfl⟩
+  | cons id rest ih =>
+    intro k a hk h
+    obtain ⟨it, e, h1, h2⟩ := h id (by simp)
+    simp only [List.length_cons] at hk
+    unfold rebalLeafLoop
+    simp only [e, show k < 4 by omega, if_true]
+    cases hlf : it.isLeaf with
+    | true =>
+      have hlt := h1 hlf
+      simp only [if_true, show a.q.proxies[it.orig]? = some a.q.proxies[it.orig] by simp [hlt]]
+      apply ih _ _ (by omega)
+      intro i hi
+      obtain ⟨it', e', g1, g2⟩ := h i (by simp [hi])
+      exact ⟨it', e', by simpa using g1, g2⟩
+    | false =>
+      have hlt := h2 hlf
+      simp only [Bool.false_eq_true, if_false, show a.q.nodes[it.orig]? = some a.q.nodes[it.orig] by simp [hlt]]
+      apply ih _ _ (by omega)
+      intro i hi
+      obtain ⟨it', e', g1, g2⟩ := h i (by simp [hi])
+      exact ⟨it', e', g1, by simpa using g2⟩
+
+theorem rebalLeaf_total (ws : Array (WsItem K)) (N0 P0 : Nat) (wok : WsOk ws N0 P0) (q : Q K) (indices : Array Nat)
+    (par plane : Nat) (hsz : indices.size ≤ 4) (hst : StOk ws N0 P0 q) (hnd : indices.toList.Nodup)
+    (hrange : ∀ i ∈ indices, i < ws.size) : ∃ r, rebalLeaf ws q indices par plane = some r := by
+  obtain ⟨⟨hasLeaf, hasInternal⟩, hfl⟩ := leafFlags_some ws indices.toList (false, false)
+    (fun i hi => hrange i (by simpa using hi))
+  obtain ⟨hall, hL, hI⟩ := leafFlags_spec ws _ _ _ _ _ hfl
+  simp only [Bool.false_eq_true, false_or] at hL hI
+  unfold rebalLeaf
+  simp only [hfl]
+  cases ha : (if hasInternal = true then allocNode q else (q, MAXN)) with | mk qa I =>
+  dsimp only
+  cases hb : (if hasLeaf = true then allocNode qa else (qa, MAXN)) with | mk qb L =>
+  dsimp only
+  have A2 : Alloc2Out q hasInternal hasLeaf qb I L := by
+    have := alloc2_spec q N0 hst.flNodup hst.flLt hst.n0 hasInternal hasLeaf
+    simp only [alloc2, ha, hb] at this
+    exact this
+  have hlen4 : indices.toList.length ≤ 4 := by simpa using hsz
+  obtain ⟨a, hloop⟩ := rebalLeafLoop_some ws L I indices.toList 0
+    { q := qb, leafAabb := invalidBox, internalAabb := invalidBox, leafBoxes := Vector.replicate 4 invalidBox,
+      internalBoxes := Vector.replicate 4 invalidBox, proxyIds := Vector.replicate 4 MAXN,
+      internalIds := Vector.replicate 4 MAXN, laneWithLeaf := MAXN } (by omega) (by
+      intro i hi
+      obtain ⟨it, e⟩ := hall i hi
+      refine ⟨it, e, fun hlf => ?_, fun hlf => ?_⟩
+      · dsimp only; rw [A2.prox, hst.p0]; exact (wok.leafLt i it e hlf).1
+      · dsimp only
+        have := (wok.keptLt i it e hlf).1
+        have := hst.n0; have := A2.frame.nsize
+        omega)
+  simp only [hloop]
+  have o := rebalLeafLoop_spec ws N0 P0 wok L I _ _ _ _ hloop hnd
+  have hlane : ¬ ((hasInternal && hasLeaf && !decide (a.laneWithLeaf < 4)) = true) := by
+    intro hc
+    simp only [Bool.and_eq_true, Bool.not_eq_true', decide_eq_false_iff_not] at hc
+    obtain ⟨⟨_, hh⟩, hlt⟩ := hc
+    rcases o.lane with ⟨i, hi, _, e⟩ | ⟨hno, _⟩
+    · omega
+    · exact hno (hL.1 hh)
+  simp only [hlane, if_false]
+  have hIlt : hasInternal = true → I < a.q.nodes.size := fun hh => by rw [o.nsize]; exact A2.ltI hh
+  have hLlt : hasLeaf = true → L < a.q.nodes.size := fun hh => by rw [o.nsize]; exact A2.ltL hh
+  cases hasInternal <;> cases hasLeaf
+  · exact ⟨_, rfl⟩
+  · simp only [Bool.false_eq_true, if_false, if_true, writeNode, hLlt rfl]; exact ⟨_, rfl⟩
+  · simp only [Bool.false_eq_true, if_false, if_true, writeNode, hIlt rfl]; exact ⟨_, rfl⟩
+  · simp only [if_true, writeNode, hIlt rfl, Array.size_setIfInBounds, hLlt rfl]; exact ⟨_, rfl⟩
+
+/-- **`do_recurse_rebalance` terminates: the fuel = number of indices suffices**, and no index panics, on every state
+whose free list holds old, pairwise different node indices and every duplicate-free slice of a well-formed workspace. -/
+theorem rebalRec_total (ws : Array (WsItem K)) (N0 P0 : Nat) (wok : WsOk ws N0 P0) (margin : K) :
+    ∀ (fuel : Nat) (q : Q K) (indices : Array Nat) (par plane : Nat), indices.size ≤ fuel → StOk ws N0 P0 q →
+      indices.toList.Nodup → (∀ i ∈ indices, i < ws.size) →
+      ∃ r, rebalRec ws margin fuel q indices par plane = some r := by
+  intro fuel
+  induction fuel with
+  | zero =>
+    intro q indices par plane hf hst hnd hrange
+    unfold rebalRec
+    have hsz : indices.size ≤ 4 := by omega
+    simp only [hsz, if_true]
+    exact rebalLeaf_total ws N0 P0 wok q indices par plane hsz hst hnd hrange
+  | succ fuel ih =>
+    intro q indices par plane hf hst hnd hrange
+    unfold rebalRec
+    by_cases hsz : indices.size ≤ 4
+    · simp only [hsz, if_true]
+      exact rebalLeaf_total ws N0 P0 wok q indices par plane hsz hst hnd hrange
+    · have hrange' : ∀ x ∈ indices, x < (ws.map (·.box)).size := by intro x hx; simpa using hrange x hx
+      obtain ⟨c, d0, d1, hcd⟩ := centerDims_some (ws.map (·.box)) indices hrange'
+      obtain ⟨s0, s1, s2, s3, hsp, perm, hlt⟩ := splitDataset_spec (ws.map (·.box)) d0 d1 c indices hrange'
+      obtain ⟨l0, l1, l2, l3⟩ := hlt (by omega)
+      have hnd' : (s0 ++ s1 ++ (s2 ++ s3)).toList.Nodup := (Array.perm_iff_toList_perm.1 perm).nodup_iff.2 hnd
+      simp only [Array.toList_append, List.nodup_append, List.mem_append, Array.mem_toList_iff] at hnd'
+      obtain ⟨⟨n0, n1, _⟩, ⟨n2, n3, _⟩, _⟩ := hnd'
+      have hmem : ∀ x, (x ∈ s0 ∨ x ∈ s1 ∨ x ∈ s2 ∨ x ∈ s3) → x ∈ indices := by
+        intro x hx
+        apply perm.mem_iff.1
+        simp only [Array.mem_append]
+        rcases hx with h | h | h | h <;> simp [h]
+      -- the placeholder
+      obtain ⟨⟨q0, nid⟩, hal⟩ : ∃ r, allocOpen q par plane = some r := by
+        unfold allocOpen allocWrite
+        cases hf' : q.freeList with
+        | nil => exact ⟨_, rfl⟩
+        | cons n rest =>
+          have hnlt : n < q.nodes.size := by have := hst.flLt n (by simp [hf']); have := hst.n0; omega
+          simp only [writeNode, hnlt, if_true, Option.map_some]; exact ⟨_, rfl⟩
+      obtain ⟨fA, pA, aA, lA, sA, nA⟩ := allocOpen_spec q par plane N0 hst.flNodup hst.flLt hst.n0 q0 nid hal
+      have st0 := hst.frame fA
+      have hal' : allocWrite q ⟨Vector.replicate 4 invalidBox, Vector.replicate 4 0, par, plane, false, false, false⟩ = some (q0, nid) := hal
+      simp only [hsz, if_false, hcd, hal', hsp]
+      obtain ⟨⟨q1, c0, b0⟩, e0⟩ := ih q0 s0 nid 0 (by omega) st0 n0 (fun x hx => hrange x (hmem x (Or.inl hx)))
+      have o0 := rebalRec_spec ws N0 P0 wok margin _ _ _ _ _ _ e0 st0 n0 (fun x hx => hrange x (hmem x (Or.inl hx)))
+      have st1 := st0.frame o0.frame
+      obtain ⟨⟨q2, c1, b1⟩, e1⟩ := ih q1 s1 nid 1 (by omega) st1 n1 (fun x hx => hrange x (hmem x (Or.inr (Or.inl hx))))
+      have o1 := rebalRec_spec ws N0 P0 wok margin _ _ _ _ _ _ e1 st1 n1 (fun x hx => hrange x (hmem x (Or.inr (Or.inl hx))))
+      have st2 := st1.frame o1.frame
+      obtain ⟨⟨q3, c2, b2⟩, e2⟩ := ih q2 s2 nid 2 (by omega) st2 n2 (fun x hx => hrange x (hmem x (Or.inr (Or.inr (Or.inl hx)))))
+      have o2 := rebalRec_spec ws N0 P0 wok margin _ _ _ _ _ _ e2 st2 n2 (fun x hx => hrange x (hmem x (Or.inr (Or.inr (Or.inl hx)))))
+      have st3 := st2.frame o2.frame
+      obtain ⟨⟨q4, c3, b3⟩, e3⟩ := ih q3 s3 nid 3 (by omega) st3 n3 (fun x hx => hrange x (hmem x (Or.inr (Or.inr (Or.inr hx)))))
+      have o3 := rebalRec_spec ws N0 P0 wok margin _ _ _ _ _ _ e3 st3 n3 (fun x hx => hrange x (hmem x (Or.inr (Or.inr (Or.inr hx)))))
+      simp only [e0, e1, e2, e3]
+      have hlt4 : nid < q4.nodes.size := by
+        have a0 := o0.frame.nsize; have a1 := o1.frame.nsize; have a2 := o2.frame.nsize; have a3 := o3.frame.nsize
+        dsimp only at a0 a1 a2 a3
+        omega
+      simp only [show q4.nodes[nid]? = some q4.nodes[nid] by simp [hlt4]]
+      exact ⟨_, rfl⟩
